@@ -7,6 +7,7 @@ MODULES = [
     "contracts.c_throttle",
     "contracts.c_future",
     "contracts.c_retry",
+    "contracts.c_timeout",
 ]
 EXPECTED_MIN_OBLIGATIONS = {}
 PROPERTY_ASSUMPTIONS = {}
